@@ -879,10 +879,17 @@ class Sim(object):
         _ACTIVE.append(self)
         old = random.shuffle
         random.shuffle = _recording_shuffle
+        # also a module that bound the function at import time (`from random import shuffle`): same behaviour, no alarm
+        import afkak.client as _client_mod
+        rebound = [n for n, v in vars(_client_mod).items() if v is _ORIG_SHUFFLE]
+        for n in rebound:
+            setattr(_client_mod, n, _recording_shuffle)
         try:
             return self._run_op(op)
         finally:
             random.shuffle = old
+            for n in rebound:
+                setattr(_client_mod, n, _ORIG_SHUFFLE)
             _ACTIVE.pop()
 
     def _run_op(self, op):
